@@ -19,7 +19,38 @@ RULE = (
 )
 
 
+VALUE_PAIRS = [([True], [1]), ([1], [1.0]), ({"n": 1}, {"n": 1.0}), ((1,), (True,)), ([[0]], [[False]]), ({(1,): "a"}, {(True,): "a"}),
+               ({("x", 1.0): [2]}, {("x", 1): [2]}), ({1}, {True}), (frozenset({1}), frozenset({1.0})), ([{1}], [{True}]), (1, True), (0.0, 0),
+               ("a", "a"), ([1, "x"], [1, "x"])]
+
+
+def value_pair_probe(ctx):
+    """QMetaData given a value that is == to the current one but not the same value (an element, a key, a set member of another
+    type, at any depth): the lookup gives the NEW value, written exactly as it was given (wave-10 / wave-11 reviews of repo
+    fixes fb34376 / 09ec453); a container holding NaN given twice stays what it is"""
+    import ast
+    import logging
+
+    from func_adl import ObjectStream
+    from func_adl.ast.meta_data import lookup_query_metadata
+
+    lvl = logging.root.manager.disable
+    logging.disable(logging.CRITICAL)
+    try:
+        nan_list = [float("nan")]
+        for first, second in VALUE_PAIRS + [(nan_list, nan_list)]:
+            ctx.count(f"value-pair:{first!r}:{second!r}", True, tags=["QMetaData value pair (equal, not the same)"])
+            s = ObjectStream(ast.Name(id="ds", ctx=ast.Load())).QMetaData({"k": first}).Select("lambda e: e.x").QMetaData({"k": second})
+            got = lookup_query_metadata(s, "k")
+            if repr(got) != repr(second) or type(got) is not type(second):
+                ctx.violate({"first": repr(first), "second": repr(second), "lookup": repr(got)},
+                            "C16: the lookup is not the value most recently set (a value equal to the old one but of other types inside was dropped)")
+    finally:
+        logging.disable(lvl)
+
+
 def run(ctx):
+    value_pair_probe(ctx)
     streams.run_histories(ctx, ctx.n(150, 4000), ID)
 
 
